@@ -4,6 +4,8 @@ package main
 // in which case the SSA body is interpreted if its package is interpretable.
 
 import (
+	"crypto/sha256"
+	"crypto/sha512"
 	"encoding/base64"
 	"encoding/hex"
 	"fmt"
@@ -11,6 +13,7 @@ import (
 	"path"
 	"path/filepath"
 	"regexp"
+	"sort"
 	"strconv"
 	"strings"
 	"time"
@@ -104,6 +107,18 @@ func init() {
 		},
 		"path/filepath.ToSlash": func(in *Interp, _ *frame, a []Value) (Value, bool) {
 			return a[0], true
+		},
+		"sort.Strings": func(in *Interp, _ *frame, a []Value) (Value, bool) {
+			sl := a[0].(SliceV)
+			ss := make([]string, sl.Len)
+			for i := 0; i < sl.Len; i++ {
+				ss[i] = in.forceConc(sl.B.E[sl.Off+i].(*Str), "sort.Strings")
+			}
+			sort.Strings(ss)
+			for i := range ss {
+				sl.B.E[sl.Off+i] = concStr(in.tf, ss[i])
+			}
+			return nil, true
 		},
 		"strconv.FormatBool": func(in *Interp, _ *frame, a []Value) (Value, bool) {
 			return in.iteStr(a[0].(*Term), concStr(in.tf, "true"), concStr(in.tf, "false")), true
@@ -419,13 +434,43 @@ func (in *Interp) newHash(alg string) Value {
 // digest is not supported).
 func (in *Interp) hashToken(alg string, data SliceV, size int) []Value {
 	tf := in.tf
-	if data.Len+2 > size {
-		in.unsupported("ideal hash model: data longer than %d bytes", size-2)
+	allConc := true
+	raw := make([]byte, data.Len)
+	for i := 0; i < data.Len; i++ {
+		t := data.B.E[data.Off+i].(IntV).T
+		if !t.IsConst() {
+			allConc = false
+			break
+		}
+		raw[i] = byte(t.Val)
+	}
+	if allConc {
+		// concrete fast path: the real digest
+		var d []byte
+		switch alg {
+		case "sha256":
+			x := sha256.Sum256(raw)
+			d = x[:]
+		case "sha512":
+			x := sha512.Sum512(raw)
+			d = x[:]
+		case "sha384":
+			x := sha512.Sum384(raw)
+			d = x[:]
+		}
+		out := make([]Value, len(d))
+		for i, b := range d {
+			out[i] = IntV{tf.BV(8, uint64(b))}
+		}
+		return out
 	}
 	tag := map[string]uint64{"sha256": 0xa1, "sha512": 0xa2, "sha384": 0xa3}[alg]
 	out := []Value{IntV{tf.BV(8, tag)}, IntV{tf.BV(8, uint64(data.Len))}}
 	for i := 0; i < data.Len; i++ {
 		out = append(out, data.B.E[data.Off+i])
+	}
+	if len(out) > size {
+		in.unsupported("ideal hash model: symbolic data longer than %d bytes", size-2)
 	}
 	for len(out) < size {
 		out = append(out, IntV{tf.BV(8, 0)})
